@@ -1,21 +1,21 @@
 // C18 — privileged native operations require the right witness (model_checking: exhaustive signer-set enumeration).
 //
-// 1. The table of privileged methods is extracted from the code (scan.go); a row that is neither in the scenario table
-//    below nor in the documented out-of-reach list aborts the run (HarnessError), so a newly added privileged method cannot
-//    silently escape.
-// 2. One seeded world holds, for every scenario, a state in which the call WOULD succeed with the right witness (shown:
-//    the canonical signer set succeeds, else HarnessError).
-// 3. For every scenario: every signer subset (size <= 3) of {operator m-of-n entry, operator keys with a wrong m, a strict
-//    subset of the validators as m'-of-n', the named owner, a validator single key, an unrelated key} and the empty set.
-//    Every transaction carries REAL signatures, first passes core/validation.VerifyTransaction (pool admission), is then
-//    executed (a) as the verified object and (b) re-decoded from its bytes (what a node executing a block sees).
-//    Oracle (implication): success => required address in the set of addresses derived, independently, from the signer
-//    entries the driver put into the transaction (or the required address is the immediately calling contract).
-// 4. Invalid-signature variants of the canonical transaction must die in VerifyTransaction.
-// 5. Calling-contract rule: two probe contracts registered in native.Contracts relay NativeCall; a witness check may pass for
-//    the IMMEDIATE caller only, never for an outer caller, the callee itself or the empty address.
-// 6. commitDpos escape hatch on both sides of MaxBlockChangeView; operator scenarios again after an epoch change (the
-//    stale operator entry must fail).
+//  1. The table of privileged methods is extracted from the code (scan.go); a row that is neither in the scenario table
+//     below nor in the documented out-of-reach list aborts the run (HarnessError), so a newly added privileged method cannot
+//     silently escape.
+//  2. One seeded world holds, for every scenario, a state in which the call WOULD succeed with the right witness (shown:
+//     the canonical signer set succeeds, else HarnessError).
+//  3. For every scenario: every signer subset (size <= 3) of {operator m-of-n entry, operator keys with a wrong m, a strict
+//     subset of the validators as m'-of-n', the named owner, a validator single key, an unrelated key} and the empty set.
+//     Every transaction carries REAL signatures, first passes core/validation.VerifyTransaction (pool admission), is then
+//     executed (a) as the verified object and (b) re-decoded from its bytes (what a node executing a block sees).
+//     Oracle (implication): success => required address in the set of addresses derived, independently, from the signer
+//     entries the driver put into the transaction (or the required address is the immediately calling contract).
+//  4. Invalid-signature variants of the canonical transaction must die in VerifyTransaction.
+//  5. Calling-contract rule: two probe contracts registered in native.Contracts relay NativeCall; a witness check may pass for
+//     the IMMEDIATE caller only, never for an outer caller, the callee itself or the empty address.
+//  6. commitDpos escape hatch on both sides of MaxBlockChangeView; operator scenarios again after an epoch change (the
+//     stale operator entry must fail).
 package main
 
 import (
@@ -68,23 +68,27 @@ type scenario struct {
 	ID       string // scan row id (+ "#variant")
 	Contract common.Address
 	Method   string
-	Kind     string                             // "operator" | "owner" | "open" (no witness required: escape hatch past the boundary)
-	Owner    string                             // owner kind: which account is the named owner: "O1" (free) or "V1" (must be a consensus validator) or a fixed account name
-	Free     bool                               // the named owner may be ANY address (then the calling-contract cases are run too)
+	Kind     string                            // "operator" | "owner" | "open" (no witness required: escape hatch past the boundary)
+	Owner    string                            // owner kind: which account is the named owner: "O1" (free) or "V1" (must be a consensus validator) or a fixed account name
+	Free     bool                              // the named owner may be ANY address (then the calling-contract cases are run too)
 	Args     func(owner common.Address) []byte // call arguments naming `owner` where the method names one
 	Height   uint32
 }
 
 type env struct {
-	r      *ev.Run
-	vals   []*polyenv.Acct
-	accts  map[string]*polyenv.Acct
-	base   polyenv.Dump // seeded world, consensus = genesis validators
-	epoch2 polyenv.Dump // same after an epoch change: consensus = validators + C5
-	cons2  []*polyenv.Acct
-	nonce  uint32
-	routes []routerSpec
+	r         *ev.Run
+	vals      []*polyenv.Acct
+	accts     map[string]*polyenv.Acct
+	base      polyenv.Dump // seeded world, consensus = genesis validators
+	epoch2    polyenv.Dump // same after an epoch change: consensus = validators + C5
+	cons2     []*polyenv.Acct
+	nonce     uint32
+	routes    []routerSpec
+	epoch2Err error
 }
+
+// quorum: number of consensus votes CheckConsensusSigns needs (seeding only).
+func (e *env) quorum() int { return (2*len(e.vals) + 2) / 3 }
 
 func (e *env) tx(contract common.Address, method string, args []byte, signers ...polyenv.Signer) *types.Transaction {
 	e.nonce++
@@ -122,7 +126,9 @@ func (e *env) sideChainArgs(owner common.Address, id, router uint64, extra []byt
 }
 
 func chainidArgs(id uint64, a common.Address) []byte {
-	return ser(func(s *common.ZeroCopySink) { (&side_chain_manager.ChainidParam{Chainid: id, Address: a}).Serialization(s) })
+	return ser(func(s *common.ZeroCopySink) {
+		(&side_chain_manager.ChainidParam{Chainid: id, Address: a}).Serialization(s)
+	})
 }
 
 func peerArgs(key string, a common.Address) []byte {
@@ -133,7 +139,7 @@ func (e *env) registerChain(w *mapworld.World, id, router uint64, extra []byte) 
 	SCM := utils.SideChainManagerContractAddress
 	o1 := e.accts["O1"]
 	e.must(w, fmt.Sprintf("registerSideChain %d", id), 1, e.tx(SCM, side_chain_manager.REGISTER_SIDE_CHAIN, e.sideChainArgs(o1.Addr, id, router, extra), polyenv.Single(o1)))
-	for _, v := range e.vals[:3] {
+	for _, v := range e.vals[:e.quorum()] {
 		e.must(w, fmt.Sprintf("approveRegisterSideChain %d", id), 1, e.tx(SCM, side_chain_manager.APPROVE_REGISTER_SIDE_CHAIN, chainidArgs(id, v.Addr), polyenv.Single(v)))
 	}
 }
@@ -165,7 +171,7 @@ func (e *env) seed() {
 		}), polyenv.Single(c)))
 	}
 	appr := func(c *polyenv.Acct) {
-		for _, v := range e.vals[:3] {
+		for _, v := range e.vals[:e.quorum()] {
 			e.must(w, "approveCandidate", 1, e.tx(NM, node_manager.APPROVE_CANDIDATE, peerArgs(c.PubHex, v.Addr), polyenv.Single(v)))
 		}
 	}
@@ -174,14 +180,16 @@ func (e *env) seed() {
 	appr(e.accts["C3"])
 	reg(e.accts["C4"])
 	appr(e.accts["C4"])
-	for _, v := range e.vals[:3] {
+	for _, v := range e.vals[:e.quorum()] {
 		e.must(w, "blackNode C4", 1, e.tx(NM, node_manager.BLACK_NODE, ser(func(s *common.ZeroCopySink) {
 			(&node_manager.PeerListParam{PeerPubkeyList: []string{e.accts["C4"].PubHex}, Address: v.Addr}).Serialization(s)
 		}), polyenv.Single(v)))
 	}
 	// relayers: request 0 pending; R2 registered and removal request 0 pending
 	rl := func(list []common.Address, a common.Address) []byte {
-		return ser(func(s *common.ZeroCopySink) { (&relayer_manager.RelayerListParam{AddressList: list, Address: a}).Serialization(s) })
+		return ser(func(s *common.ZeroCopySink) {
+			(&relayer_manager.RelayerListParam{AddressList: list, Address: a}).Serialization(s)
+		})
 	}
 	e.must(w, "registerRelayer", 1, e.tx(RM, relayer_manager.REGISTER_RELAYER, rl([]common.Address{e.accts["R1"].Addr}, o1.Addr), polyenv.Single(o1)))
 	e.must(w, "removeRelayer", 1, e.tx(RM, relayer_manager.REMOVE_RELAYER, rl([]common.Address{e.accts["R1"].Addr}, o1.Addr), polyenv.Single(o1)))
@@ -198,7 +206,12 @@ func (e *env) seed() {
 	c5 := e.accts["C5"]
 	reg(c5)
 	appr(c5)
-	e.must(w, "commitDpos", 5, e.tx(NM, node_manager.COMMIT_DPOS, nil, polyenv.Multi(e.vals)))
+	if res := w.Exec(e.tx(NM, node_manager.COMMIT_DPOS, nil, polyenv.Multi(e.vals)), 5, ts); !res.OK {
+		// the operator entry of the genesis validators was refused: either the harness is wrong or the code derives the operator
+		// from something else — decided at the end (a violation found on the epoch-1 world explains it, else harness error)
+		e.epoch2Err = res.Err
+		return
+	}
 	e.epoch2 = w.Dump()
 	e.cons2 = append(append([]*polyenv.Acct{}, e.vals...), e.accts["C3"], c5)
 }
@@ -262,7 +275,9 @@ func (e *env) scenarios() []scenario {
 		})
 	}
 	ap := func(o common.Address) []byte {
-		return ser(func(s *common.ZeroCopySink) { (&relayer_manager.ApproveRelayerParam{ID: 0, Address: o}).Serialization(s) })
+		return ser(func(s *common.ZeroCopySink) {
+			(&relayer_manager.ApproveRelayerParam{ID: 0, Address: o}).Serialization(s)
+		})
 	}
 	add("RelayerManagerContractAddress.registerRelayer", RM, relayer_manager.REGISTER_RELAYER, "owner", "O1", true, rl)
 	add("RelayerManagerContractAddress.RemoveRelayer", RM, relayer_manager.REMOVE_RELAYER, "owner", "O1", true, rl)
@@ -366,12 +381,14 @@ func rejectedByWitness(err error) bool {
 }
 
 type runner struct {
-	e          *env
-	r          *ev.Run
-	perRouter  map[string]map[string]any
-	perScen    map[string]map[string]int
-	maxSubset  int
-	execs, adm int
+	e             *env
+	r             *ev.Run
+	perRouter     map[string]map[string]any
+	perScen       map[string]map[string]int
+	maxSubset     int
+	execs, adm    int
+	n             int
+	replaySigners []string
 }
 
 func (x *runner) count(id, class string) {
@@ -460,8 +477,11 @@ func (x *runner) runScenario(sc scenario, d polyenv.Dump, cons []*polyenv.Acct, 
 	id := sc.ID + "|" + world
 	canonicalOK := false
 	var canonErr error
-	violBefore := r.NViolations()
+	violated := false
 	for _, sub := range subsets(len(atoms), x.maxSubset) {
+		if x.replaySigners != nil && strings.Join(names(atoms, sub), ",") != strings.Join(x.replaySigners, ",") {
+			continue
+		}
 		var signers []polyenv.Signer
 		addrs := map[common.Address]bool{}
 		for _, i := range sub {
@@ -478,10 +498,11 @@ func (x *runner) runScenario(sc scenario, d polyenv.Dump, cons []*polyenv.Acct, 
 		r.Case(fmt.Sprintf("%s/%s/has=%v/ok=%v", sc.Kind, sc.Method, has, ok))
 		switch {
 		case ok && !has:
+			violated = true
 			r.Class("VIOLATING-accept")
 			x.count(id, "accepted_without_witness")
 			r.Violation(sc.ID+":accepted-without-"+reqName+"-witness", map[string]any{"scenario": sc.ID, "world": world, "contract": sc.Contract.ToHexString(),
-				"method": sc.Method, "args_hex": hex.EncodeToString(args), "height": sc.Height, "signers": names(atoms, sub), "required": reqName,
+				"method": sc.Method, "args_hex": hex.EncodeToString(args), "height": sc.Height, "validators": x.n, "signers": names(atoms, sub), "required": reqName,
 				"required_address": required.ToBase58()})
 		case ok:
 			r.Class("accept_with_witness")
@@ -509,7 +530,7 @@ func (x *runner) runScenario(sc scenario, d polyenv.Dump, cons []*polyenv.Acct, 
 			r.Class("commit_open_after_timeout")
 		}
 	}
-	if !canonicalOK && r.NViolations() == violBefore { // (with a violation in this scenario the verdict is the violation)
+	if !canonicalOK && !violated && x.replaySigners == nil { // (with a violation in this scenario the verdict is the violation)
 		r.HarnessError("scenario %s: the canonical signer set (%s alone) does not succeed — the seeded state is wrong: %v", id, reqName, canonErr)
 	}
 	r.Class("scenario_done")
@@ -597,20 +618,22 @@ func (x *runner) invalidSignatures(sc scenario, cons []*polyenv.Acct) {
 
 func main() {
 	r := ev.Start("C18", "model_checking")
-	r.Require("accept_with_witness", "reject_by_witness_check", "died_at_verify", "scenario_done", "calling_contract_accepted",
-		"calling_contract_rejected", "commit_open_after_timeout")
-	vals := polyenv.Keys(4)
-	polyenv.Setup(0, vals)
-	polyenv.InstallHeightLedger()
-	e := &env{r: r, vals: vals, accts: map[string]*polyenv.Acct{}, routes: routerSpecs()}
-	for i, n := range []string{"C1", "C2", "C3", "C4", "C5"} {
-		e.accts[n] = polyenv.Key(20 + i)
+	var replay struct {
+		Scenario string   `json:"scenario"`
+		World    string   `json:"world"`
+		Signers  []string `json:"signers"`
+		N        int      `json:"validators"`
 	}
-	for i, n := range []string{"O1", "U", "U2", "R1", "R2"} {
-		e.accts[n] = polyenv.Key(40 + i)
-	}
-	for i, v := range vals {
-		e.accts[fmt.Sprintf("V%d", i)] = v
+	if r.ReplayPath != "" {
+		if err := r.LoadReplay(&replay); err != nil {
+			r.HarnessError("cannot read replay: %v", err)
+		}
+		if replay.N == 0 {
+			replay.N = 4
+		}
+	} else {
+		r.Require("accept_with_witness", "reject_by_witness_check", "died_at_verify", "scenario_done", "calling_contract_accepted",
+			"calling_contract_rejected", "commit_open_after_timeout")
 	}
 	installProbes()
 
@@ -619,8 +642,129 @@ func main() {
 	if len(rows) < 40 {
 		r.HarnessError("static scan implausible: %d rows", len(rows))
 	}
-	e.seed()
-	scens := e.scenarios()
+	r.Note("header_sync_routers", hsRouters)
+	ns := []int{4}
+	if r.Thorough() {
+		ns = []int{4, 7}
+	}
+	if r.ReplayPath != "" {
+		ns = []int{replay.N}
+	}
+	execs, adm, nscen, maxSubset := 0, 0, 0, 0
+	for _, n := range ns {
+		vals := polyenv.Keys(n)
+		polyenv.Setup(0, vals)
+		polyenv.InstallHeightLedger()
+		e := &env{r: r, vals: vals, accts: map[string]*polyenv.Acct{}, routes: routerSpecs()}
+		for i, nm := range []string{"C1", "C2", "C3", "C4", "C5"} {
+			e.accts[nm] = polyenv.Key(20 + i)
+		}
+		for i, nm := range []string{"O1", "U", "U2", "R1", "R2"} {
+			e.accts[nm] = polyenv.Key(40 + i)
+		}
+		for i, v := range vals {
+			e.accts[fmt.Sprintf("V%d", i)] = v
+		}
+		e.seed()
+		scens := e.scenarios()
+		tag := fmt.Sprintf("_%dvalidators", n)
+		if n == 4 {
+			tag = ""
+			checkTable(r, e, rows, scens)
+		}
+		x := &runner{e: e, r: r, perScen: map[string]map[string]int{}, maxSubset: r.QT(3, 4), n: n}
+		if msg := selfCheck(e); msg != "" {
+			r.HarnessError("mapworld differs from polyenv.World: %s", msg)
+		}
+		if r.ReplayPath != "" {
+			x.replaySigners = replay.Signers
+		}
+		stale := polyenv.Multi(e.vals)
+		for _, sc := range scens {
+			if r.ReplayPath != "" && sc.ID != replay.Scenario {
+				continue
+			}
+			if r.Expired() {
+				r.Capped("scenarios after " + sc.ID)
+				break
+			}
+			if replay.World == "" || replay.World == "epoch1" {
+				x.runScenario(sc, e.base, e.vals, "epoch1", nil)
+			}
+			if sc.Kind == "operator" && !strings.Contains(sc.ID, "commitDpos") && e.epoch2 != nil && (replay.World == "" || replay.World == "epoch2") {
+				x.runScenario(sc, e.epoch2, e.cons2, "epoch2", &stale)
+			}
+			if r.ReplayPath != "" {
+				continue
+			}
+			if sc.Kind != "open" {
+				x.invalidSignatures(sc, e.vals)
+			}
+			if sc.Kind == "owner" {
+				x.callingContract(sc)
+			}
+		}
+		if r.ReplayPath != "" {
+			fmt.Printf("replayed %s on world %s with signers %v\n", replay.Scenario, replay.World, replay.Signers)
+			continue
+		}
+		x.emptyAddress(scens)
+		x.latentContextLeak()
+		if e.epoch2 == nil && r.NViolations() == 0 {
+			r.HarnessError("seeding the second epoch failed: commitDpos signed by the genesis operator entry was refused: %v", e.epoch2Err)
+		}
+		// per-router summary
+		var routerRows []map[string]any
+		for _, rs := range e.routes {
+			id := "HeaderSyncContractAddress.syncGenesisHeader@" + rs.Name + "|epoch1"
+			row := map[string]any{"router": rs.Name, "router_id": rs.Router}
+			if rs.Genesis == nil {
+				row["status"] = "out of reach: " + rs.Note
+			} else {
+				c := x.perScen[id]
+				row["accepted_with_operator"] = c["accepted_with_witness"]
+				row["rejected_by_witness_check"] = c["rejected_by_witness_check"]
+				row["accepted_without_operator"] = c["accepted_without_witness"]
+				row["witness_check_reached"] = c["rejected_by_witness_check"] > 0
+				row["succeeds_with_operator_alone"] = c["accepted_with_witness"] > 0
+			}
+			routerRows = append(routerRows, row)
+		}
+		r.Note("syncGenesisHeader_per_router"+tag, routerRows)
+		keys := make([]string, 0, len(x.perScen))
+		for k := range x.perScen {
+			keys = append(keys, k)
+		}
+		sort.Strings(keys)
+		ps := map[string]any{}
+		for _, k := range keys {
+			ps[k] = x.perScen[k]
+		}
+		r.Note("per_scenario"+tag, ps)
+		if os.Getenv("C18_VERBOSE") != "" {
+			for _, k := range keys {
+				fmt.Println(n, k, x.perScen[k])
+			}
+		}
+		execs, adm, nscen, maxSubset = execs+x.execs, adm+x.adm, len(scens), x.maxSubset
+	}
+	r.Assume("a transaction reaches execution only after core/validation.VerifyTransaction accepted it (pool admission / block verification); block execution itself derives the witness addresses from the listed public keys",
+		"seeded worlds: 4 genesis validators (thorough: also 7); after the epoch change the consensus set is validators + C3 + C5; the named owner is O1, a fixed record owner, or validator V1 where the method requires a consensus member")
+	r.Finish(map[string]any{
+		"rule":                          "for every privileged method found in the code, every signer subset (<= bound) of the atom set: success => required address (operator of the current consensus set / named owner) is among the addresses of the signer entries, or is the immediately calling contract",
+		"scenarios":                     nscen,
+		"validator_counts":              ns,
+		"max_signer_subset":             maxSubset,
+		"states":                        2 * len(ns),
+		"transitions":                   execs,
+		"traces_validated_against_impl": execs,
+		"admission_checks":              adm,
+		"max_depth":                     1,
+	})
+}
+
+// checkTable: every privileged row found in the code must be covered by a scenario or be documented as out of reach.
+func checkTable(r *ev.Run, e *env, rows []scanRow, scens []scenario) {
 	covered := map[string]bool{}
 	for _, s := range scens {
 		covered[strings.SplitN(s.ID, "#", 2)[0]] = true
@@ -632,7 +776,9 @@ func main() {
 		}
 	}
 	var table []map[string]any
+	rowIDs := map[string]bool{}
 	for _, row := range rows {
+		rowIDs[row.ID()] = true
 		st := "covered"
 		if !covered[row.ID()] {
 			if why, ok := outOfReach[row.ID()]; ok {
@@ -643,84 +789,15 @@ func main() {
 		}
 		table = append(table, map[string]any{"id": row.ID(), "handler": row.Handler, "witness_calls_found": row.Sinks, "status": st})
 	}
-	rowIDs := map[string]bool{}
-	for _, row := range rows {
-		rowIDs[row.ID()] = true
-	}
+	// a scenario without a row: the static scan no longer finds a witness call in that handler. Not a harness error — the
+	// dynamic enumeration below decides (it reports accepted-without-witness if the check is really gone).
+	var lost []string
 	for id := range covered {
 		if !rowIDs[id] {
-			r.HarnessError("scenario %s has no row in the table extracted from the code (renamed / removed method?)", id)
+			lost = append(lost, id)
 		}
 	}
+	sort.Strings(lost)
 	r.Note("privileged_methods_from_code", table)
-	r.Note("header_sync_routers", hsRouters)
-
-	// ---- 2./3. signer subsets
-	x := &runner{e: e, r: r, perRouter: map[string]map[string]any{}, perScen: map[string]map[string]int{}, maxSubset: r.QT(3, 4)}
-	if msg := selfCheck(e); msg != "" {
-		r.HarnessError("mapworld differs from polyenv.World: %s", msg)
-	}
-	stale := polyenv.Multi(e.vals)
-	for _, sc := range scens {
-		if r.Expired() {
-			r.Capped("scenarios after " + sc.ID)
-			break
-		}
-		x.runScenario(sc, e.base, e.vals, "epoch1", nil)
-		if sc.Kind == "operator" && !strings.Contains(sc.ID, "commitDpos") {
-			x.runScenario(sc, e.epoch2, e.cons2, "epoch2", &stale)
-		}
-		if sc.Kind != "open" {
-			x.invalidSignatures(sc, e.vals)
-		}
-		if sc.Kind == "owner" {
-			x.callingContract(sc)
-		}
-	}
-	x.emptyAddress(scens)
-	x.latentContextLeak()
-	// per-router summary
-	var routerRows []map[string]any
-	for _, rs := range e.routes {
-		id := "HeaderSyncContractAddress.syncGenesisHeader@" + rs.Name + "|epoch1"
-		row := map[string]any{"router": rs.Name, "router_id": rs.Router}
-		if rs.Genesis == nil {
-			row["status"] = "out of reach: " + rs.Note
-		} else {
-			c := x.perScen[id]
-			row["accepted_with_operator"] = c["accepted_with_witness"]
-			row["rejected_by_witness_check"] = c["rejected_by_witness_check"]
-			row["accepted_without_operator"] = c["accepted_without_witness"]
-			row["witness_check_reached"] = c["rejected_by_witness_check"] > 0
-		}
-		routerRows = append(routerRows, row)
-	}
-	r.Note("syncGenesisHeader_per_router", routerRows)
-	keys := make([]string, 0, len(x.perScen))
-	for k := range x.perScen {
-		keys = append(keys, k)
-	}
-	sort.Strings(keys)
-	ps := map[string]any{}
-	for _, k := range keys {
-		ps[k] = x.perScen[k]
-	}
-	r.Note("per_scenario", ps)
-	r.Assume("a transaction reaches execution only after core/validation.VerifyTransaction accepted it (pool admission / block verification); block execution itself derives the witness addresses from the listed public keys",
-		"one seeded world (4 genesis validators; after the epoch change 6 consensus members); the named owner is O1, a fixed record owner, or validator V1 where the method requires a consensus member")
-	if os.Getenv("C18_VERBOSE") != "" {
-		for _, k := range keys {
-			fmt.Println(k, x.perScen[k])
-		}
-	}
-	r.Finish(map[string]any{
-		"rule":                          "for every privileged method found in the code, every signer subset (<= bound) of the atom set: success => required address (operator of the current consensus set / named owner) is among the addresses of the signer entries, or is the immediately calling contract",
-		"scenarios":                     len(scens),
-		"max_signer_subset":             x.maxSubset,
-		"states":                        2,
-		"transitions":                   x.execs,
-		"traces_validated_against_impl": x.execs,
-		"admission_checks":              x.adm,
-		"max_depth":                     1,
-	})
+	r.Note("scenarios_without_static_witness_call", lost)
 }
